@@ -7,7 +7,7 @@ src, sid = sys.argv[1], sys.argv[2]
 base = sys.argv[3] if len(sys.argv) > 3 else "HEAD"
 env = dict(os.environ, GOFLAGS="-mod=mod", GOPROXY="off", GOSUMDB="off", GOTOOLCHAIN="local", GOWORK="off")
 def run(cmd, cwd):
-    p = subprocess.run(cmd, cwd=cwd, env=env, shell=True, capture_output=True, text=True)
+    p = subprocess.run(cmd, cwd=cwd, env=env, shell=True, capture_output=True, text=True, errors="replace")
     return p.returncode, (p.stdout + p.stderr)
 w = tempfile.mkdtemp(prefix="vseed.")
 try:
